@@ -187,7 +187,7 @@ def parseAKind (s : String) : Option Attrs.Kind :=
   | "bool" => some .bool | "int" => some .int | "uint" => some .uint | "float" => some .float
   | "string" => some .string | "time" => some .time | "bytes" => some .bytes | "other" => some .other | _ => none
 
-/-- declaration list: [["f", name, kind, tag, defCol, selfSer] | ["e", name, anon, tag, [kids…]], …] (fuel = nesting bound) -/
+/-- declaration list: [["f", name, kind, tag, defCol, selfSer, ptr] | ["e", name, anon, tag, [kids…]], …] (fuel = nesting bound) -/
 def parseADecl : Nat → List Json → Option Attrs.Decl
   | _, [] => some .nil
   | 0, _ => none
@@ -197,7 +197,7 @@ def parseADecl : Nat → List Json → Option Attrs.Decl
     match ← jStr? (arg a 0) with
     | "f" =>
       some (.leaf { name := ← jStr? (arg a 1), kind := ← parseAKind (← jStr? (arg a 2)), tag := ← jStr? (arg a 3),
-                    defCol := ← jStr? (arg a 4), selfSer := ← jBool? (arg a 5) } next)
+                    defCol := ← jStr? (arg a 4), selfSer := ← jBool? (arg a 5), ptr := ← jBool? (arg a 6) } next)
     | "e" =>
       let kids ← parseADecl fuel (← jArr? (arg a 4)).toList
       some (.embed (← jStr? (arg a 1)) (← jBool? (arg a 2)) (← jStr? (arg a 3)) kids next)
@@ -348,7 +348,7 @@ def handleC03 (op : String) (args : Array Json) : Option Json := do
   | "c03.attrs" =>
     -- ["c03.attrs", decl, [[single, [nonzero per schema field]], …]] →
     --   "error" | "unmodelled" | [fields, dbNames, owners, primaryFields, prioritized|null, withDefaultDB, RETURNING list, [INSERT columns …]]
-    let d ← parseADecl 8 (← jArr? (arg args 1)).toList
+    let d ← parseADecl 200 (← jArr? (arg args 1)).toList
     let qs ← (← jArr? (arg args 2)).toList.mapM (fun q => do
       let a ← jArr? q
       some (← jBool? (arg a 0), ← parseBoolList (arg a 1)))
